@@ -348,4 +348,14 @@ def batchBasic (k : Nat) (e : IdxExpr) : Bool :=
   | none => true
   | some idx => (idx.take k).all fun x => !x.isList
 
+/-- the two event components select a BLOCK of the covariance without index arithmetic on tensors: int × slice,
+slice × int, or both full slices (which includes every index that addresses batch dimensions only) -/
+def eventBlock (k : Nat) (e : IdxExpr) : Bool :=
+  match specExpand (k + 2) e.toList with
+  | none => true
+  | some idx =>
+    match idx.drop k with
+    | [r, c] => (r.isInt && c.isSlice) || (r.isSlice && c.isInt) || (r.isFull && c.isFull)
+    | _ => false
+
 end MTIndex
